@@ -206,12 +206,19 @@ func (h *Here) valid() error {
 			return fmt.Errorf("content line starting with the marker (not asserted)")
 		}
 	}
-	tb := trimBlanks(h.content())
-	if tb == "" || asciiSpace(tb[0]) || asciiSpace(tb[len(tb)-1]) {
-		return fmt.Errorf("heredoc content with a white-space boundary other than blanks (not asserted)")
-	}
 	return nil
 }
+
+// openBoundary: the blank-trimmed heredoc text is empty or starts/ends with other ASCII
+// white space (an empty or CR/VT/FF line at either end). "Trimmed of surrounding blanks"
+// does not say whether such lines go too, so the exact text of such an argument is left
+// open: it is compared modulo surrounding ASCII white space only (everything else - no
+// error, the other arguments, eof, bytes consumed, the next command - is still asserted).
+func openBoundary(tb string) bool {
+	return tb == "" || asciiSpace(tb[0]) || asciiSpace(tb[len(tb)-1])
+}
+
+func trimASCIISpace(s string) string { return strings.Trim(s, " \t\n\r\v\f") }
 
 // value is the argument the statement promises for this Arg; render appends its spelling.
 func (a *Arg) value() string {
@@ -296,6 +303,10 @@ func (a *Arg) render(sb *strings.Builder) error {
 // number of input bytes consumed once the call has returned.
 type RefCmd struct {
 	Args []string
+	// Open[i] > 0: argument i is a heredoc with an open boundary (see openBoundary); its
+	// first Open[i] bytes ("name=") are compared exactly, the rest modulo surrounding
+	// ASCII white space.
+	Open []int
 	EOF  bool
 	End  int
 }
@@ -307,6 +318,7 @@ func (c *GrammarCase) Render() (string, []RefCmd, error) {
 	for ci := range c.Cmds {
 		cmd := &c.Cmds[ci]
 		var args []string
+		var open []int
 		for ai := range cmd.Args {
 			a := &cmd.Args[ai]
 			if ai > 0 {
@@ -324,6 +336,11 @@ func (c *GrammarCase) Render() (string, []RefCmd, error) {
 				return "", nil, err
 			}
 			args = append(args, a.value())
+			if a.Here != nil && openBoundary(trimBlanks(a.Here.content())) {
+				open = append(open, len(a.Here.Name)+1)
+			} else {
+				open = append(open, 0)
+			}
 		}
 		if n := len(cmd.Args); n > 0 && cmd.Args[n-1].Here != nil && cmd.Tail != "" && cmd.Tail[0] == 'c' {
 			return "", nil, fmt.Errorf("continuation glued to a heredoc marker")
@@ -333,10 +350,10 @@ func (c *GrammarCase) Render() (string, []RefCmd, error) {
 		}
 		last := ci == len(c.Cmds)-1
 		if last && c.NoFinalNL {
-			exp = append(exp, RefCmd{Args: args, EOF: true, End: sb.Len()})
+			exp = append(exp, RefCmd{Args: args, Open: open, EOF: true, End: sb.Len()})
 		} else {
 			sb.WriteByte('\n')
-			exp = append(exp, RefCmd{Args: args, EOF: false, End: sb.Len()})
+			exp = append(exp, RefCmd{Args: args, Open: open, EOF: false, End: sb.Len()})
 		}
 	}
 	if len(exp) == 0 || !exp[len(exp)-1].EOF {
@@ -403,8 +420,8 @@ func Quote(val string, style int) []Seg {
 // newline, backslash or quote; a backslash inside quotes that is not \"; a newline or the end
 // of input inside quotes; a continuation directly between two argument pieces; heredocs
 // without a name, with a non-plain name, with a content line whose trimmed form starts with
-// the marker, without a terminator, or whose blank-trimmed content starts/ends with other
-// ASCII white space (or is empty).
+// the marker, or without a terminator. A heredoc whose blank-trimmed content is empty or
+// starts/ends with other ASCII white space is accepted with an open text (RefCmd.Open).
 func Reference(in string) ([]RefCmd, bool) {
 	var cmds []RefCmd
 	i := 0
@@ -424,6 +441,7 @@ func Reference(in string) ([]RefCmd, bool) {
 func refCommand(in string, i int) (RefCmd, bool) {
 	var (
 		args  []string
+		opens []int
 		cur   []byte
 		open  bool       // an argument is being collected
 		plain = true     // it consists of unescaped bare bytes only
@@ -433,6 +451,7 @@ func refCommand(in string, i int) (RefCmd, bool) {
 	closeArg := func() {
 		if open {
 			args = append(args, string(cur))
+			opens = append(opens, 0)
 		}
 		cur = cur[:0]
 		open = false
@@ -442,13 +461,13 @@ func refCommand(in string, i int) (RefCmd, bool) {
 	for {
 		if i == len(in) {
 			closeArg()
-			return RefCmd{Args: args, EOF: true, End: i}, true
+			return RefCmd{Args: args, Open: opens, EOF: true, End: i}, true
 		}
 		c := in[i]
 		switch {
 		case c == '\n':
 			closeArg()
-			return RefCmd{Args: args, EOF: false, End: i + 1}, true
+			return RefCmd{Args: args, Open: opens, EOF: false, End: i + 1}, true
 		case isBlank(c):
 			closeArg()
 			i++
@@ -517,6 +536,11 @@ func refCommand(in string, i int) (RefCmd, bool) {
 					return bad, false
 				}
 				args = append(args, name+"="+val)
+				if openBoundary(val) {
+					opens = append(opens, len(name)+1)
+				} else {
+					opens = append(opens, 0)
+				}
 				cur = cur[:0]
 				open, plain, cont = false, true, false
 				i = next
@@ -555,11 +579,7 @@ func refHeredoc(in string, i int) (string, int, bool) {
 			if rest := line[len(mark):]; rest != "" && !isBlank(rest[0]) {
 				return "", 0, false
 			}
-			tb := trimBlanks(in[body : p-1])
-			if tb == "" || asciiSpace(tb[0]) || asciiSpace(tb[len(tb)-1]) {
-				return "", 0, false
-			}
-			return tb, p + len(mark), true
+			return trimBlanks(in[body : p-1]), p + len(mark), true
 		}
 		if q < 0 {
 			return "", 0, false
@@ -595,6 +615,25 @@ func (r *reader) Read(p []byte) (int, error) {
 	n := copy(p, r.s[r.pos:])
 	r.pos += n
 	return n, nil
+}
+
+// matchArgs compares the returned arguments with an expectation, honouring Open.
+func matchArgs(got []string, e RefCmd) bool {
+	if len(got) != len(e.Args) {
+		return false
+	}
+	for i := range got {
+		if n := e.Open[i]; n > 0 {
+			if len(got[i]) < n || got[i][:n] != e.Args[i][:n] || trimASCIISpace(got[i][n:]) != trimASCIISpace(e.Args[i][n:]) {
+				return false
+			}
+			continue
+		}
+		if got[i] != e.Args[i] {
+			return false
+		}
+	}
+	return true
 }
 
 func equalArgs(a, b []string) bool {
@@ -679,8 +718,8 @@ func runCalls(in string, exp []RefCmd) (v hx.Verdict) {
 			if err != nil {
 				return fail(call, "error-on-defined-input", "error %v, expected arguments %q", err, e.Args)
 			}
-			if !equalArgs(args, e.Args) {
-				return fail(call, "args", "got %q (% x), expected %q (% x)", args, args, e.Args, e.Args)
+			if !matchArgs(args, e) {
+				return fail(call, "args", "got %q (% x), expected %q (% x) (open-boundary heredocs %v)", args, args, e.Args, e.Args, e.Open)
 			}
 			if eof != e.EOF {
 				return fail(call, "eof", "eof=%v, expected %v", eof, e.EOF)
@@ -765,6 +804,9 @@ func ExecGrammar(c GrammarCase) hx.Verdict {
 				if t := a.Here.content(); t != trimBlanks(t) {
 					labels["heredoc-trimmed"] = true
 				}
+				for l := range hereLabels(a.Here) {
+					labels[l] = true
+				}
 				continue
 			}
 			nq, nb := 0, 0
@@ -806,6 +848,38 @@ func ExecGrammar(c GrammarCase) hx.Verdict {
 	return v
 }
 
+// hereLabels classifies the content lines of a heredoc relative to its marker.
+func hereLabels(h *Here) map[string]bool {
+	out := map[string]bool{}
+	if openBoundary(trimBlanks(h.content())) {
+		out["heredoc-open-text"] = true
+	}
+	if len(h.Mark) >= 3 && (strings.HasPrefix(h.Mark[1:], h.Mark[:1]) || strings.HasPrefix(h.Mark[2:], h.Mark[:1])) {
+		out["heredoc-overlapping-marker"] = true
+	}
+	for i, l := range h.Lines {
+		s := string(l)
+		last := i == len(h.Lines)-1 && i > 0
+		switch {
+		case s == "":
+			out["heredoc-empty-line"] = true
+			if last {
+				out["heredoc-empty-last-line"] = true
+			}
+		case len(s) < len(h.Mark) && strings.HasPrefix(h.Mark, s):
+			out["heredoc-marker-prefix-line"] = true
+			if last {
+				out["heredoc-marker-prefix-last-line"] = true
+			}
+		case strings.Contains(s, h.Mark):
+			out["heredoc-marker-inside-line"] = true
+		case len(s) > 0 && s[0] == h.Mark[0]:
+			out["heredoc-marker-prefix-then-other"] = true
+		}
+	}
+	return out
+}
+
 // ExecBytes runs a raw input: totality always, full comparison when the reference
 // splitter accepts the input.
 func ExecBytes(c BytesCase) hx.Verdict {
@@ -818,6 +892,27 @@ func ExecBytes(c BytesCase) hx.Verdict {
 	v.NonTrivial = nonTrivialBytes(in)
 	if ok {
 		v.Label("bytes-in-grammar")
+		if strings.Contains(in, "=<<") {
+			multi, openText := false, false
+			for _, e := range exp {
+				for i, a := range e.Args {
+					// only a heredoc argument can contain a newline
+					if strings.Contains(a, "\n") || e.Open[i] > 0 {
+						multi = true
+					}
+					if e.Open[i] > 0 {
+						openText = true
+					}
+				}
+			}
+			v.Label("bytes-heredoc-in-grammar")
+			if multi {
+				v.Label("bytes-heredoc-multiline")
+			}
+			if openText {
+				v.Label("bytes-heredoc-open-text")
+			}
+		}
 	} else {
 		v.Label("bytes-outside-grammar")
 	}
